@@ -148,22 +148,58 @@ def one_case(ctx, index, rng: random.Random):
                         rec.fail(monitor="C06.identities", op="normalize", symptom="normalize() modified its operand", diff=sorted(snap.diff(s0, snap.snapshot(h))), detail={})
             if type(h).__name__ == "Histogram2D":
                 ax = rng.randrange(2)
-                pn = h.partial_normalize(ax)
+                named = rng.random() < 0.5
+                if named:
+                    with attach.quiet():
+                        h.axis_names = ("first", "second")
+                        s0 = snap.snapshot(h)
+                ax_arg = ("first", "second")[ax] if named else ax
+                pn = h.partial_normalize(ax_arg)
                 with attach.quiet():
                     f = np.asarray(pn.frequencies, dtype=float)
+                    e2 = np.asarray(pn.errors2, dtype=float)
                     src = snap.arr_values(s0["frequencies"]).astype(float)
+                    src_e = snap.arr_values(s0["errors2"]).astype(float)
                     sums = f.sum(axis=ax)
                     src_sums = src.sum(axis=ax)
                     good = np.all(np.where(src_sums > 0, np.abs(sums - 1) < 1e-9, sums == 0))
                     if not good:
-                        rec.fail(monitor="C06.identities", op=f"partial_normalize({ax})", symptom="rows / columns do not sum to 1 after partial_normalize",
+                        rec.fail(monitor="C06.identities", op=f"partial_normalize({ax_arg!r})", symptom="rows / columns do not sum to 1 after partial_normalize",
                                  diff=["frequencies"], detail={"sums": sums, "source_sums": src_sums})
+                    div = np.where(src_sums > 0, src_sums, 1.0)
+                    div = div[np.newaxis, :] if ax == 0 else div[:, np.newaxis]
+                    if not (np.allclose(f, src / div, rtol=1e-12, atol=0) and np.allclose(e2, src_e / (div * div), rtol=1e-12, atol=0)):
+                        rec.fail(monitor="C06.identities", op=f"partial_normalize({ax_arg!r})", symptom="contents / errors2 not divided by the sums along the axis (and their squares)",
+                                 diff=["frequencies", "errors2"], detail={"got": f, "expected": src / div})
                     if snap.diff(s0, snap.snapshot(h)):
                         rec.fail(monitor="C06.identities", op="partial_normalize", symptom="partial_normalize() modified its operand", diff=["operand"], detail={})
+                # in place: same result as the copying form, for the axis given either way
+                hc = h.copy()
+                ret = hc.partial_normalize(ax_arg, inplace=True)
+                with attach.quiet():
+                    dd = snap.diff(snap.snapshot(pn), snap.snapshot(hc))
+                    if dd or ret is not hc:
+                        rec.fail(monitor="C06.identities", op=f"partial_normalize({ax_arg!r}, inplace=True)", symptom="in-place partial_normalize differs from the copying one",
+                                 diff=sorted(dd) or ["return"], detail={"copying": np.asarray(pn.frequencies), "inplace": np.asarray(hc.frequencies)})
         except Exception as e:
             rec.fail(monitor="C06.identities", op="identities", symptom=f"valid scaling / normalisation raised {type(e).__name__}", diff=["raised"],
                      detail={"error": str(e)[:200], "factor": repr(c), "dtype": s0["dtype"]})
-        # refusals
+        # refusals (also after a block with free arithmetics was left, normally or by an exception: the
+        # switch must not outlive the block)
+        left_block = None
+        if rng.random() < 0.3:
+            from physt.config import config as _cfg
+            left_block = rng.choice(["normal", "raised", "nested_raised"])
+            try:
+                with _cfg.enable_free_arithmetics():
+                    _ = h * -1 if h.total else None
+                    if left_block == "nested_raised":
+                        with _cfg.enable_free_arithmetics(False):
+                            pass
+                    if left_block != "normal":
+                        _ = h * h.copy()  # refused even here; the exception leaves the block
+            except Exception:
+                pass
         for kind in rng.sample(["hh_mul", "hh_div", "rdiv", "neg", "neg_div", "array", "array_div"], 3):
             raised = False
             try:
@@ -189,7 +225,7 @@ def one_case(ctx, index, rng: random.Random):
                 raised = True
             rec.mon("C06.scale.refusal")
             if not raised:
-                rec.fail(monitor="C06.scale.refusal", op=kind, symptom="operation that the statement says is refused was accepted", diff=["not_refused"], detail={"kind": kind})
+                rec.fail(monitor="C06.scale.refusal", op=kind, symptom="operation that the statement says is refused was accepted", diff=["not_refused"], detail={"kind": kind, "after_free_arithmetics_block": left_block})
         with attach.quiet():
             dd = snap.diff(s0, snap.snapshot(h))
             if dd:
